@@ -289,6 +289,20 @@ func checkC04(c *Ctx) (int, error) {
 		nb = len(bnd)
 	}
 	streams = append(streams, bnd[:minInt(nb, len(bnd))]...)
+	// dynamic headers of the greatest length the format allows (286 bytes: they do not fit any
+	// smaller staging area when they arrive in pieces), first and later block
+	for i := 0; i < nb/2; i++ {
+		mh := synth.BlockDesc{Type: "dyn", LShape: []string{"flat", "random", "freq", "skew"}[i%4], DShape: []string{"flat", "random", "freq"}[i%3],
+			Toks: []string{"mixed", "lits", "near"}[i%3], N: 20 + rng.Intn(400), MaxH: true, WorstCL: true, Alt258: i%2 == 0}
+		d := synth.Desc{Seed: rng.Int63n(1 << 40), Blocks: []synth.BlockDesc{mh, {Type: "stored", N: 5}}}
+		if i%2 == 1 {
+			d.Blocks = []synth.BlockDesc{{Type: "fixed", Toks: "lits", N: 1 + rng.Intn(300)}, mh}
+		}
+		if _, _, err := d.Build(); err != nil {
+			return 0, err
+		}
+		streams = append(streams, namedStream{name: fmt.Sprintf("maxheader%d", i), kind: "flate", s: RStream{Synth: &SynthSpec{d}}})
+	}
 	// truncations of some
 	base := len(streams)
 	for i := 0; i < base; i++ {
